@@ -669,7 +669,9 @@ where
                     symbol = symbol - step;
                 } else {
                     // We're still in the downward search phase with exponentially increasing step size.
-                    if step << 1 != Symbol::zero() {
+                    // Don't double `step` if this would overflow (for signed `Symbol` types,
+                    // overflow would make `step` negative, and the search would never terminate).
+                    if step << 1 > Symbol::zero() {
                         step = step << 1;
                     }
 
@@ -751,7 +753,9 @@ where
                     symbol = symbol + step;
                 } else {
                     // We're still in the upward search phase with exponentially increasing step size.
-                    if step << 1 != Symbol::zero() {
+                    // Don't double `step` if this would overflow (for signed `Symbol` types,
+                    // overflow would make `step` negative, and the search would never terminate).
+                    if step << 1 > Symbol::zero() {
                         step = step << 1;
                     }
 
